@@ -17,6 +17,7 @@ func init() {
 			"R7.2: an offer is labelled with the publisher's true id and username (the results of the up connection's User(), which reads the owning client), its label and the down connection's own id. " +
 			"R7.3: deleting an up connection with push set tells every other member (close = PushConn with a nil connection) on every path; every call site passes push as recorded in the frozen table; leaving deletes every up and down connection before DelClient; a WHIP session closing fans the close out too. " +
 			"R7.4: when nothing of a stream is requested the subscriber is sent a close for it; a failed negotiation closes the down connection with the error; closes act on the client's own connections. " +
+			"R7.8: the parser of a per-stream request keeps an explicit empty list ('nothing from this stream', answered with a close) apart from an absent one ('use the default request'): whatever toStringArray returns without an error for a list that was present is a non-nil slice. " +
 			"R7.7: the delayed announcement scheduled by pushConn is skipped only when the stream's pushed flag was found set (an announcement happened since it was scheduled): it alone may still carry the 'replaces' id of a stream that was itself replaced, or closed, before its first announcement. " +
 			"R7.6: replaceTracks reports 'unchanged' only when there is nothing to add and nothing to remove, and applies every difference; pushDownConn closes the downstream it replaces on every exit unless a successful offer announced the replacement; a stream marked closed accepts no new subscriber, and delUpConn marks it before announcing the close. " +
 			"R7.5: the requested kinds select the first audio track, the first video track for 'video', the last for 'video-low' (and limit the spatial layer when there is no separate low-quality track).",
@@ -803,6 +804,7 @@ func runC07(c *Ctx) {
 func runC07Pairing(c *Ctx) {
 	p := c.P
 	defer runC07Delayed(c)
+	defer runC07EmptyRequest(c)
 	c.Rule("R7.6", "E2/E3", "a narrowed request is applied; a replaced downstream is always closed; a closed stream accepts no new subscriber", 6)
 	eng := p.Facts()
 	// (a) replaceTracks says "unchanged" only when there is nothing to add and nothing to delete
@@ -1403,4 +1405,58 @@ func runC07Delayed(c *Ctx) {
 	}
 	c.Check(!found && ncall > 0, "R7.7", "pushConn: delayed announcement", at, "every path of the delayed goroutine that does not announce found up.pushed set",
 		"the delayed announcement can be skipped although nobody announced the stream since it was scheduled: a 'replaces' id it carries (of a stream that was silently replaced before its first announcement) never reaches the subscribers, who keep the replaced stream open")
+}
+
+// R7.8: pushDownConn falls back to the client-wide request only when the
+// stream's own request is nil.  requestStream(id, []) must therefore be stored
+// as an empty, non-nil list.
+func runC07EmptyRequest(c *Ctx) {
+	p := c.P
+	c.Rule("R7.8", "E2", "an explicit empty request stays distinguishable from no request", 1)
+	ts := p.Func("rtpconn", "", "toStringArray")
+	if ts == nil {
+		c.Unknown("R7.8", "anchors", 0, "rtpconn.toStringArray not found")
+		return
+	}
+	info := ts.Pkg.TypesInfo
+	ff := p.Facts().Analyze(ts)
+	params := ts.params(info)
+	nok, bad := 0, token.NoPos
+	for _, ret := range ff.Returns() {
+		if len(ret.Results) != 2 || !isNilIdent(info, ret.Results[1]) {
+			continue
+		}
+		st, _ := ff.At(ret)
+		if st == nil {
+			continue
+		}
+		// the returns for an absent list: the argument (or the asserted slice) is nil
+		absent := false
+		for _, f := range st.Facts() {
+			if f.Op == "eq" && f.Pos && f.B != nil && (f.A.K == 'n' || f.B.K == 'n') {
+				other := f.A
+				if f.A.K == 'n' {
+					other = f.B
+				}
+				if other.K == 'v' && len(params) > 0 && (other.Obj == params[0] || other.Obj.Pos() > ts.Pos()) && !isNilIdent(info, ret.Results[0]) == false {
+					absent = true
+				}
+			}
+		}
+		if isNilIdent(info, ret.Results[0]) && absent {
+			continue
+		}
+		t := ff.term(ret.Results[0])
+		if t != nil && (st.HasFact(mkFact(false, "eq", t, TNil())) || st.HasFact(mkFact(false, "eq", TNil(), t))) {
+			nok++
+		} else {
+			bad = ret.Pos()
+		}
+	}
+	pos := ts.Pos()
+	if bad.IsValid() {
+		pos = bad
+	}
+	c.Check(nok > 0 && !bad.IsValid(), "R7.8", "toStringArray: a list that is present yields a non-nil slice", pos, "the successful return for a present list returns the result of make",
+		"toStringArray can return a nil slice for a list that was present (an empty one): requestStream(id, []) is then stored as 'no request', the subscriber falls back to its default request and is never sent the close it asked for")
 }
